@@ -32,15 +32,15 @@ CLAIMS["C05"] = {
     "technique": "static analysis: typestate dataflow over error_context_t (save/setjmp/restore/pop) with call-graph may_raise summaries, field-set sibling agreement, dominance and constant propagation in error_handler",
     "text": "All users of the error-recovery API are enumerated from the call graph; for each, the typestate automaton is run over the CFG with every call classified by an inter-procedural may-raise summary: "
             "no raising call while the context is registered but its jmp_buf unarmed, restore_context first on every recovery branch, pop_context on every exit, no re-raise into the same recovery point. "
-            "save/restore and push/pop field sets must agree, error_handler must reset its guards before every longjmp. Decides the recovery mechanism on all paths; per-efun value-stack hygiene on error is not decided.",
+            "save/restore and push/pop field sets must agree and pop_control_stack must restore each saved register from its own field on every path (recovery pops a single frame), error_handler must reset its guards before every longjmp. Decides the recovery mechanism on all paths; per-efun value-stack hygiene on error is not decided.",
     "design_ref": "DESIGN.md §5 C05",
 }
 
 CLAIMS["C09"] = {
-    "technique": "static analysis: error-context typestate on backend(), re-executed-region rule, guard dominance over every subscript of the connection table, cycle-passes-setjmp reachability for per-task recovery points",
+    "technique": "static analysis: error-context typestate on backend(), re-executed-region rule, guard dominance over every subscript of the connection table, cycle-passes-setjmp reachability for per-task recovery points, stale-pointer typestate for interactive_t* across calls that may free connection records (call-graph summaries, IP_VALID edge refinement), allocation/length agreement of the connection table, early-exit allow-list in error_handler",
     "text": "Decides the structural parts of driver survival: the backend recovery point is armed before anything can raise and nothing but once-guarded start-up steps is re-executed after a recovery; "
             "every one of the ~40 subscripts of all_users in the whole driver is guarded against the table being NULL (idle driver, no connection yet); every loop that runs LPC tasks under one error context either re-arms per task or is a reviewed safe restart. "
-            "Liveness and 'the other users are served' are not decided; stale connection records after callbacks (C09-c) are not yet claimed.",
+            "every interactive_t* held across a call that can reach remove_interactive or the interpreter is re-validated before use (six use-after-free sites found, replayed under valgrind and fixed; uses that are stale only through a snooper's callback are reported undecided); all_users is never recorded longer than allocated (off-by-one found and fixed); error_handler leaves without switching off the failing heart beat only on the catch path and the in_error exit. Liveness and 'the other users are served' are not decided.",
     "design_ref": "DESIGN.md §5 C09",
 }
 
@@ -54,7 +54,7 @@ CLAIMS["C10"] = {
 
 CLAIMS["C11"] = {
     "technique": "static analysis: dominance / avoid-set reachability in error_handler, call_heart_beat and destruct_object, who-may-write on current_heart_beat, bounded-index idioms on heart_beats[]",
-    "text": "Decides fault locality and list hygiene structurally: on the uncaught-error path error_handler switches off exactly current_heart_beat and clears it before jumping, nothing else writes that variable, "
+    "text": "Decides fault locality and list hygiene structurally: on the uncaught-error path error_handler switches off exactly current_heart_beat and clears it before jumping, nothing else writes that variable, the only exits that skip the switch-off are the catch path and the in_error exit, "
             "call_heart_beat publishes the object before calling it and clears it before reset/call_out run; destruct_object removes the heart beat before marking the object destructed; "
             "every heart_beats[] subscript except the round-robin cursor is bounded by the list length and the growth site grows. "
             "'Exactly once every n ticks' under enable/disable histories (index compensation) is not decided; the cursor subscript is reported as undecided.",
@@ -102,10 +102,10 @@ CLAIMS["C04"] = {
 }
 
 CLAIMS["C07"] = {
-    "technique": "static analysis: guard dominance of function_visible over both dispatch sites of apply_low, provenance of the flags operand, constant-mask check, hit/miss sibling agreement on the apply cache (negative entries only under lookup==NULL, field-set agreement), who-may-write",
+    "technique": "static analysis: guard dominance of function_visible over both dispatch sites of apply_low, provenance of the flags operand, constant-mask check, hit/miss sibling agreement on the apply cache (negative entries only under lookup==NULL, field-set agreement), who-may-write, forward dataflow from every store to the global call_origin to its consuming apply_low",
     "text": "Decides the visibility and cache mechanism structurally: no path of apply_low reaches the interpreter without function_visible(origin, flags of the object's own program) being true, call_other is refused for static/private/protected and nothing else is refused; "
             "the cache's hit test compares id, program and name, a negative entry is stored only when the lookup found nothing (so an earlier refused call cannot change a later verdict), and the hit path reads only fields the miss path writes. "
-            "Most-derived resolution under inheritance (find_function order, offsets) and compile-time overloading are not decided.",
+            "The origin handed over through the global call_origin is consumed by the next apply_low with no LPC-running call and no function exit in between (otherwise a load or a skipped element changes how the next call is classified). Most-derived resolution under inheritance (find_function order, offsets) and compile-time overloading are not decided.",
     "design_ref": "DESIGN.md §5 C07",
 }
 
@@ -142,18 +142,18 @@ CLAIMS["C06"] = {
 }
 
 CLAIMS["C02"] = {
-    "technique": "static analysis: growth-site rule over every realloc in the compiler units, per-iteration weighted longest-path in budgeted lexer copy loops, must-pass-through of state release in epilog, call-graph reachability of fatal() from compile_file (context-sensitive for comparator arguments), representation-invariant rule on the locals table",
+    "technique": "static analysis: growth-site rule over every realloc in the compiler units, per-iteration weighted longest-path in budgeted lexer copy loops, must-pass-through of state release in epilog, call-graph reachability of fatal() from compile_file (context-sensitive for comparator arguments), representation-invariant rule on the locals table, reset-completeness of lexer statics (post-dominating resets, drain loops, constant propagation to every return)",
     "text": "Decides structural necessary conditions of compiler safety and reusability for all source texts: every table reallocation really grows (or is an exact fit); lexer copy loops that spend a space budget never store more bytes than they charge and SAVEC stores are bounded; "
             "epilog releases lexer, scratchpad and locals on every return; errors are counted and block object creation; fatal() is reachable from compilation only via reviewed internal-inconsistency sites; "
-            "whoever drops a local's sem_value removes it from the live range. The stuck re-entrancy flag after an escaping error is a recorded finding. Termination and equality of the produced program with a fresh driver's are not decided.",
+            "whoever drops a local's sem_value removes it from the live range. every lexer static written while yylex runs is reset per compilation, is a pure statistic, or is provably back at its initial value at each return of its only writer (two flags that leaked into the next file were found and fixed). The stuck re-entrancy flag after an escaping error is a recorded finding. Termination and full equality of the produced program with a fresh driver's (compiler-side state beyond the lexer) are not decided.",
     "design_ref": "DESIGN.md §5 C02",
 }
 
 CLAIMS["C01"] = {
-    "technique": "static analysis: clang's type-resolved format checker with injected format attributes over all units plus a literal-provenance rule, output-bound computation for every formatted write into a fixed char array, must-pass CHECK_TYPES analysis of the efun dispatch cases, stack-space check dominance for every value-stack push, saturating-length flow rule, LPC-integer index taint with range guards",
+    "technique": "static analysis: clang's type-resolved format checker with injected format attributes over all units plus a literal-provenance rule, output-bound computation for every formatted write into a fixed char array, must-pass CHECK_TYPES analysis of the efun dispatch cases, stack-space check dominance for every value-stack push, saturating-length flow rule, LPC-integer index taint with range guards, stale-pointer typestate for mapping internals held across LPC callbacks",
     "text": "Decides structural necessary conditions of memory safety for all programs at once, per site: ~900 reporter calls have literal or provably driver-literal formats with well-formed conversions; every sprintf/strcpy into a fixed buffer has a computed bound (LPC-controlled numbers at full range) or is reported undecided; "
             "each F_EFUNn dispatch is behind one CHECK_TYPES per fixed argument; every sp increment is behind a space check or a pop (73 unguarded push sites are recorded findings, so a new one is reported); MSTR_SIZE never reaches a copy/allocation length without its USHRT_MAX fallback; "
-            "subscripts and copy lengths derived from LPC integers are dominated by lower and upper bounds paired with the indexed container. Use-after-free in general, efun-internal pointer arithmetic, pc staying inside the bytecode and optional-argument tag tests (C01-e) are not decided.",
+            "subscripts and copy lengths derived from LPC integers are dominated by lower and upper bounds paired with the indexed container. mapping node/table pointers that stay live across an LPC callback belong to a mapping the callback cannot reach (private copy or proven single reference). Use-after-free in general, efun-internal pointer arithmetic, pc staying inside the bytecode and optional-argument tag tests (C01-e) are not decided.",
     "design_ref": "DESIGN.md §5 C01",
 }
 
